@@ -62,8 +62,18 @@ def sign_case(draw):
     bufk = draw(st.sampled_from(["full"] * 8 + ["max"] * 4 + ["max-1", "zero", "64", "65", "exact", "exact", "exact-1", "exact-1", "rand", "rand"]))
     if bufk == "rand":
         bufk = "rand:%d" % draw(st.integers(0, RC.MAXPROOF))
-    return {"value": value, "min_value": mn, "exp": exp, "min_bits": min_bits, "blind": blind, "nonce": draw(gens.hexbytes(32)), "msg": msg,
-            "extra": draw(st.integers(0, 100).flatmap(lambda n: gens.hexbytes(n))), "buf": bufk, "gen": draw(RC.gen_spec), "other": draw(st.integers(0, 1 << 30))}
+    nonce = draw(gens.hexbytes(32))
+    other = draw(st.integers(0, 1 << 30))
+    # classes the property must cover are forced by a hash selector (see rp_common.hsel): 1/16 each
+    sel = RC.hsel("C09", nonce, other)
+    if sel % 16 == 0:
+        value, mn, exp = value | I63, 0, (0 if (sel >> 4) & 1 else -1)          # value >= 2^63 inside the documented-valid set
+    elif sel % 16 == 1:
+        mn, exp, min_bits = 0, 0, 64                                             # 64-bit mantissa
+    elif sel % 16 == 2:
+        mn = value                                                               # min_value == value
+    return {"value": value, "min_value": mn, "exp": exp, "min_bits": min_bits, "blind": blind, "nonce": nonce, "msg": msg,
+            "extra": draw(st.integers(0, 100).flatmap(lambda n: gens.hexbytes(n))), "buf": bufk, "gen": draw(RC.gen_spec), "other": other}
 
 
 def region_of(case, bufsize, maxsz):
